@@ -84,6 +84,13 @@ def run(chk, facts, tier):
                 cs = fn.body.calls(want)
                 if not (len(cs) == 1 and is_name(cs[0].args()[0], fn.params[0]['n']) and (len(fn.params) == 1 or is_name(cs[0].args()[1], fn.params[1]['n']))):
                     probs.append('header(%s) does not %s the 16 bit word at the start of the PDU' % (', '.join(p['n'] for p in fn.params), want))
+                if len(fn.params) == 2:
+                    # ... and nothing else: the ring writes its wrap mark through header(p, v) where only the two header bytes are known to lie inside the storage
+                    p0 = fn.params[0]['n']
+                    extra = [st for tgt, op, val, st in stores(fn.body) if as_elem(tgt) is not None and mentions(as_elem(tgt)[0], p0)]
+                    extra += [c for c in fn.body.calls() if c not in cs and any(mentions(a, p0) for a in c.args())]
+                    if extra:
+                        probs.append('header(%s, ..) writes more than the 16 bit header word (line %d): the ring puts its wrap mark through this function where only two bytes are left in front of the end of the storage' % (p0, extra[0].l))
         body_offs = {o for o in offs if not isinstance(o, tuple)}
         mem = {o[1] for o in offs if isinstance(o, tuple)}
         if len(body_offs) != 1 or len(mem) != 1:
